@@ -568,6 +568,8 @@ impl Callers {
     pub fn poll(&mut self, c: usize) -> bool {
         let Some(slot) = self.slots.get_mut(&c) else { return false };
         let woken = slot.flag.0.swap(false, Ordering::SeqCst);
+        // wake-up instants since the previous poll step, then those of this step's self-wakes (cumulative)
+        let mut step_wakes: Vec<u64> = Vec::new();
         if !slot.polled {
             log_raw(format!("#fp {} {}", c, now_ms()));
         } else {
@@ -576,6 +578,7 @@ impl Callers {
                 let ws: Vec<String> = w.iter().map(|x| x.to_string()).collect();
                 log_raw(format!("#wake {} {}", c, ws.join(",")));
             }
+            step_wakes = w;
         }
         let before = log_len();
         let waker = Waker::from(slot.flag.clone());
@@ -603,7 +606,8 @@ impl Callers {
                             return Poll::Pending;
                         }
                         let w: Vec<u64> = std::mem::take(&mut *flag.1.lock().unwrap_or_else(|e| e.into_inner()));
-                        let ws: Vec<String> = w.iter().map(|x| x.to_string()).collect();
+                        step_wakes.extend(w);
+                        let ws: Vec<String> = step_wakes.iter().map(|x| x.to_string()).collect();
                         log_raw(format!("#wake {} {}", c, ws.join(",")));
                     }
                 }
